@@ -65,7 +65,10 @@ func (s *Sim) crashEnumerate() {
 		// crash during recovery: keep only a strict prefix of the commits the
 		// recovery itself made, then recover again.
 		if recCommits > 0 && c.Bool(400, "crash-in-recovery") {
-			j := c.Intn(recCommits, "recovery-prefix")
+			// (j == recCommits: the recovery finished and the process dies
+			// before doing anything else - whatever the recovery left must
+			// itself be a consistent state)
+			j := c.Intn(recCommits+1, "recovery-prefix")
 			node.db.Close()
 			img2 := img.CrashPrefix(n + j)
 			r.Fault("crash_during_recovery")
